@@ -139,6 +139,11 @@ type cell struct {
 	// Prior 3: the verifier also carries a BLOB policy whose statement has the same name "p" but the laxest level
 	// (audit, everything logged, revocation skipped); the same instance first verifies the signature as a blob
 	// signature under that statement, then the judged OCI verification must use the OCI statement's level.
+	// Prior 4 (the other direction): the same verifier instance first verifies the cell's own signature under the
+	// cell's (failing) answers; then the collaborators switch to their GOOD answers (anchor in every listed store of
+	// the type, revocation OK) and the judged signature is the one without expiry / certificate-time deviation. The
+	// judged verification must behave as decide() says for that repaired cell: nothing a failed call leaves behind
+	// (a remembered rejection, a sticky error, a half-filled result) may change it.
 	Prior int `json:"prior"`
 }
 
@@ -503,6 +508,28 @@ func (w *world) run(lv vt.Level, c cell) observation {
 			}
 		}
 	}
+	if c.Prior == 4 {
+		_, _ = v.Verify(ctx, w.desc, w.envelope(c), notation.VerifierVerifyOptions{ArtifactReference: "reg.io/r@" + w.desc.Digest.String(), SignatureMediaType: forge.Formats[c.Format]})
+		jc := c
+		jc.Exp, jc.CTime, jc.Rev = 0, 0, 0
+		if c.Trust != 5 { // Trust 5 is a property of the statement (no store of the type listed): cannot be repaired behind the verifier
+			jc.Trust = 0
+			stores := map[string][]*x509.Certificate{}
+			for k, v := range ts.Stores {
+				stores[k] = v
+			}
+			stores[storeType+":s"] = []*x509.Certificate{w.good.Root().Cert}
+			stores[storeType+":broken"] = []*x509.Certificate{w.good.Root().Cert}
+			ts.Stores, ts.Errs, ts.Empty = stores, map[string]error{}, map[string]bool{}
+		}
+		rv.Results = mocks.AllOK().Results
+		ts.Calls, rv.Calls = nil, nil
+		if plug != nil {
+			plug.VerifyCalls, plug.MetadataCalls = nil, 0
+		}
+		c = jc
+		c.Prior = 4
+	}
 	outcome, verr := v.Verify(ctx, w.desc, w.envelope(c), notation.VerifierVerifyOptions{ArtifactReference: "reg.io/r@" + w.desc.Digest.String(), SignatureMediaType: forge.Formats[c.Format]})
 	obs.Accept = verr == nil
 	if verr != nil {
@@ -518,6 +545,9 @@ func (w *world) run(lv vt.Level, c cell) observation {
 		}
 		if c.Prior == 3 {
 			key += ":after-blob-verification-under-equally-named-statement"
+		}
+		if c.Prior == 4 {
+			key += ":after-a-failed-verification-and-repaired-collaborators"
 		}
 		obs.Viol = append(obs.Viol, key+" :: "+what)
 	}
@@ -777,6 +807,10 @@ func main() {
 			cells = append(cells, c)
 			if d <= 2 {
 				c.Prior = 3
+				cells = append(cells, c)
+			}
+			if c.Exp != 0 || c.CTime != 0 || c.Rev != 0 || (c.Trust != 0 && c.Trust != 5) {
+				c.Prior = 4
 				cells = append(cells, c)
 			}
 		}
